@@ -56,4 +56,51 @@ example : (parsePlain asciiCls (fun _ => none) ['a', ' ', '1', 's', 't', '.']).t
     some [⟨⟨0,1⟩,.word⟩, ⟨⟨1,2⟩,.space 1⟩, ⟨⟨2,3⟩,.number 10 none⟩, ⟨⟨3,5⟩,.word⟩,
          ⟨⟨5,6⟩,.punct .Period⟩] := by decide
 
+/-! ### non-vacuity, continued: every hypothesis of every theorem above met together at a non-trivial value -/
+
+/-- a table that is not empty satisfies `ExtOK`: a hostname of length 3 reported at position 2 of a text
+of length 7 -/
+example : ExtOK (fun pos => if pos = 2 then some (.hostname, 3) else none) 7 := by
+  intro pos k n h
+  dsimp only at h
+  split at h
+  · cases h; omega
+  · cases h
+
+/-- non-vacuity of `lexToken_progress`: its three hypotheses together, in the middle of a text (`pos = 2` of
+`a 1st.`), the theorem applied -/
+example : ∃ k n, lexToken asciiCls (fun _ => none) 2 ['1', 's', 't', '.'] = some (k, n) ∧ 1 ≤ n ∧ n ≤ 4 :=
+  lexToken_progress asciiCls (fun _ => none) 2 ['1', 's', 't', '.'] 6
+    (by intro _ _ _ h; cases h) (by decide) (by decide)
+
+/-- … and what it finds there -/
+example : lexToken asciiCls (fun _ => none) 2 ['1', 's', 't', '.'] = some (.number 10 none, 1) := by decide
+
+/-- non-vacuity of `parsePlain_tiles` with a table that is not empty (`a a.b c`, hostname `a.b` at 2): the
+theorem applied … -/
+example : ∃ toks, parsePlain asciiCls (fun pos => if pos = 2 then some (.hostname, 3) else none)
+      ['a', ' ', 'a', '.', 'b', ' ', 'c'] = .ok toks ∧ Tiles toks 0 7 ∧ toks.length ≤ 7 :=
+  parsePlain_tiles asciiCls _ ['a', ' ', 'a', '.', 'b', ' ', 'c'] (by
+    intro pos k n h
+    dsimp only at h
+    split at h
+    · cases h; simp only [List.length_cons, List.length_nil]; omega
+    · cases h)
+
+/-- … and the tokens it speaks about -/
+example : (parsePlain asciiCls (fun pos => if pos = 2 then some (.hostname, 3) else none)
+      ['a', ' ', 'a', '.', 'b', ' ', 'c']).toOption =
+    some [⟨⟨0,1⟩,.word⟩, ⟨⟨1,2⟩,.space 1⟩, ⟨⟨2,5⟩,.hostname⟩, ⟨⟨5,6⟩,.space 1⟩, ⟨⟨6,7⟩,.word⟩] := by decide
+
+/-- the hypothesis `ExtOK` of `parsePlain_tiles` is needed: a table entry that leaves the text becomes a
+token that leaves the text -/
+example : (parsePlain asciiCls (fun pos => if pos = 0 then some (.url, 9) else none) ['a', 'b']).toOption =
+    some [⟨⟨0, 9⟩, .url⟩] := by decide
+
+/-- non-vacuity of `tiles_inbounds_sorted`: three tokens tiling `[2, 7)`, the theorem applied -/
+example : (∀ t ∈ [(⟨⟨2,3⟩,.word⟩ : Tok), ⟨⟨3,5⟩,.space 2⟩, ⟨⟨5,7⟩,.word⟩],
+      2 ≤ t.span.start ∧ t.span.start < t.span.stop ∧ t.span.stop ≤ 7) ∧
+    [(⟨⟨2,3⟩,.word⟩ : Tok), ⟨⟨3,5⟩,.space 2⟩, ⟨⟨5,7⟩,.word⟩].Pairwise (fun x y => x.span.stop ≤ y.span.start) :=
+  (tiles_inbounds_sorted _ 2 7 (by decide)).2
+
 end Harper.C02
